@@ -3,8 +3,9 @@
 //
 //	limbgen <repo> <verif>
 //
-// writes <verif>/coq/Gen/FfRoutines.v and <verif>/coq/Gen/FfgRoutines.v (a
-// file is rewritten only when its content changes).  The hand-written models
+// writes <verif>/coq/Gen/FfRoutines.v and <verif>/coq/Gen/FfgRoutines.v, then
+// <verif>/coq/Gen/FfGlue.v and <verif>/coq/Gen/FfgGlue.v (a file is rewritten
+// only when its content changes).  The hand-written models
 // Model/FfLimbs.v and Model/FfgLimbs.v, which all theorems are about, are tied
 // to these generated files by Proofs/FfRoutinesEq.v and Proofs/FfgRoutinesEq.v
 // (lemmas gen_<name>_eq, proved by conversion): any edit of a translated Go
@@ -96,11 +97,18 @@
 //     assigns to them and only passes &g as an "in" argument.
 //   - A *Element result is the receiver/parameter it aliases (checked).
 //
-// Left out: ffg Inverse (math/big), Exp (big.Int exponent, loop), BatchInvert
-// (slices, loops), Sqrt, Legendre (loops, big.Int), Div (calls Inverse; ff:
-// fragmented, ffg: big.Int), ffg Halve (calls Inverse), Cmp, BitLen,
-// LexicographicallyLargest, SetRandom, byte/string/big.Int conversions.  Their
-// models remain tied to the source by constants + differential testing only.
+// # Element-level functions with loops and calls ("glue")
+//
+// After the limb-level translation of a package the glue translator (glue.go,
+// g*.go; documented in README.md) translates Exp, Legendre, Sqrt, Inverse (the
+// loops around the fragments above), Div, BatchInvert, the big.Int / byte
+// conversions, Cmp, LexicographicallyLargest ... into Gen/FfGlue.v and
+// Gen/FfgGlue.v, which refer to the definitions of Gen/Ff{,g}Routines.v by
+// qualified name.  A glue function that cannot be translated gets a marker
+// definition <name>__TRANSLATION_FAILED and limbgen exits with status 3 (the
+// limb-level part keeps exit status 1 for any failure).
+//
+// Left out altogether: SetRandom, String, SetString, SetInterface, Bit.
 package main
 
 import (
@@ -167,6 +175,9 @@ var configs = []config{
 }
 
 func fatalf(format string, args ...interface{}) {
+	if glueMode { // glue phase: only the current function fails (marker definition, exit 3)
+		panic(transErr{fmt.Sprintf(format, args...)})
+	}
 	fmt.Fprintf(os.Stderr, "limbgen: ERROR: "+format+"\n", args...)
 	os.Exit(1)
 }
@@ -191,6 +202,7 @@ func main() {
 		os.Exit(2)
 	}
 	repo, verif := os.Args[1], os.Args[2]
+	nfail := 0
 	for i := range configs {
 		cfg := &configs[i]
 		p := loadPkg(filepath.Join(repo, cfg.pkgDir), cfg)
@@ -199,5 +211,9 @@ func main() {
 		}
 		out := p.emitFile()
 		writeIfChanged(filepath.Join(verif, "coq", "Gen", cfg.module+".v"), []byte(out))
+		nfail += runGlue(p, verif)
+	}
+	if nfail > 0 {
+		os.Exit(3)
 	}
 }
